@@ -855,6 +855,10 @@ func parseModItem(s string) (ModItem, error) {
 		// "allmem T": the backing arrays of every slice with elements of type T
 		return ModItem{Kind: "every", Name: "", Type: fs[1]}, nil
 	}
+	if len(fs) >= 2 && fs[0] == "allmaps" {
+		// "allmaps map[K]V": the contents (and, coarsely, the length of every map) of all maps of that type
+		return ModItem{Kind: "every", Name: "#maps", Type: strings.TrimSpace(s[len("allmaps"):])}, nil
+	}
 	if len(fs) == 2 && fs[0] == "every" {
 		// "every T.f": field f of any object of struct type T (T may be package-qualified)
 		i := strings.LastIndex(fs[1], ".")
